@@ -28,4 +28,6 @@ def run(check):
     check.run_rule('C05.R6', lambda c: rule_star_extraction(c, 'C05.R6'))
     check.run_rule('C05.R7', lambda c: rule_resolution_order(c, 'C05.R7'))
     # a forwarding call that cannot be translated must abort discovery (plain signature), never be skipped
+    from ..rules_visitor import rule_nested_scope_effects
+    check.run_rule('C05.R9', lambda c: rule_nested_scope_effects(c, 'C05.R9'))
     check.run_rule('C05.R8', lambda c: rule_translation(c, {'translate': 'C05.R8', 'fallback': 'C05.R8'}))
